@@ -4,8 +4,10 @@
    Over the search model: a reported mate-in-one score comes with a move after which the opponent has no
    generated move and is in check (C12_honest); if a generated move mates and the first pass completes, the
    search returns a mating move with the mover's mate-in-one score at depth 0 (C12_finds).
-   `mates_now` holds for a mating move unless it is a capture leaving insufficient material (the shortcut runs
-   first in the code; no such position is a mate in real chess - not proved).  "no generated move and in check" IS Rules.is_mate on every reachable board
+   `mates_now` holds for EVERY mating move: a position with insufficient material (kings and at most one minor piece) is never
+   checkmate (InsufFacts.insufficient_never_mate, a kernel sweep over king x king x minor placements lifted to Good boards), so
+   the shortcut that runs before the mate test never hides a mate: C12_finds_rules states the finding half over the rules with
+   no side condition.  "no generated move and in check" IS Rules.is_mate on every reachable board
    (C01/C03, closed in this round): a reported mate-in-one score comes with a move that is legal under the rules and
    after which the opponent is checkmated by the rules (C12_honest_rules).  Also decided per run on mate-in-one roots
    (zero, one, several mating moves) against the rules-level enumeration of mating moves. *)
@@ -44,3 +46,12 @@ Theorem C12_honest_rules : forall k tf passes fuel root m d f, Reachable root ->
   In m (legal_moves (Board.abs root)) /\ is_mate (make (Board.abs root) m) = true.
 Proof. exact search_mate1_honest_make. Qed.
 Print Assumptions C12_honest_rules.
+
+Theorem C12_finds_rules : forall k tf passes fuel root sc best st' m, Reachable root ->
+  b_half root < 65535 -> b_full root < 65535 ->
+  In m (legal_moves (Board.abs root)) -> is_mate (make (Board.abs root) m) = true ->
+  pass k tf (fuel + N.to_nat 0) root 0 None {| s_polls := 0; s_evals := 0 |} = PassDone sc best st' ->
+  exists m', Search.search k tf (S passes) fuel root = (Some m', mate1 (b_turn root), 0, false)
+             /\ In m' (legal_moves (Board.abs root)) /\ is_mate (make (Board.abs root) m') = true.
+Proof. exact search_finds_mate1_rules. Qed.
+Print Assumptions C12_finds_rules.
